@@ -145,15 +145,16 @@ pub fn check(m: &Model, praw: &str, o: &EntOpts, items: &[Result<EntryView, Stri
     if exp.loop_possible {
         for (i, it) in items.iter().enumerate() {
             if let Err(k) = it {
-                if k != "Path::LinkLooping" {
+                let fine = k == "Path::LinkLooping" || (exp.dangling && k == "Path::DoesNotExist");
+                if !fine {
                     return Err(("loop-wrong-error".into(), format!("error {} while following a link cycle", k)));
                 }
                 if i != items.len() - 1 {
-                    return Err(("loop-continues".into(), "iteration continued after LinkLooping".into()));
+                    return Err(("loop-continues".into(), "iteration continued after an error".into()));
                 }
             }
         }
-        if errs.is_empty() && exp.window.1 == usize::MAX {
+        if errs.is_empty() && exp.window.1 == usize::MAX && !exp.dangling {
             return Err(("loop-not-reported".into(), "followed link cycle but no LinkLooping error".into()));
         }
         return Ok(());
@@ -210,6 +211,11 @@ pub fn check(m: &Model, praw: &str, o: &EntOpts, items: &[Result<EntryView, Stri
     }
     let unique = pos.values().all(|v| v.len() == 1);
     if !unique {
+        return Ok(());
+    }
+    // with followed links the same directory is reachable by several routes and "the parent" /
+    // "the siblings" of an item are no longer well defined by its path: multiset only
+    if o.follow && m.t.nodes.values().any(|n| n.kind == crate::tree::Kind::Link) {
         return Ok(());
     }
     // parents before contents (after with contents_first); a followed link carries its target's
